@@ -946,11 +946,24 @@ package zap
 
 // Build: every failure happens before the sinks are opened, except a failure of openSinks
 // itself (which has closed what it opened): once openSinks has succeeded Build succeeds.
+// New: a nil core gives the no-op logger; otherwise the options are applied, in order, to a logger
+// nobody else holds yet (C09), and that logger is returned.
 //@ func zap.New
-//@   props C19
-//@   flags trusted
+//@   props C19 C09 C07
+//@   flags nopanic
+//@   requires forall k int :: 0 <= k && k < len(options) ==> options[k] != nil
+//@   track WO = call (*zap.Logger).WithOptions
 //@   modifies $user
-//@   ensures result != nil
+//@   ensures result != nil && fresh(result)
+//@   ensures core != nil ==> #WO == 1 && result == WO.ret0[0] && WO.arg0[0] == options && fresh(WO.recv[0])
+//@   ensures core == nil ==> #WO == 0 && typeof(result.core) == type(zapcore.nopCore)
+
+//@ func zap.NewNop
+//@   props C19 C09 C07
+//@   flags nopanic
+//@   modifies nothing
+//@   ensures result != nil && fresh(result) && typeof(result.core) == type(zapcore.nopCore) && result.errorOutput != nil && result.clock != nil && result.addStack != nil
+//@   ensures result.name == "" && !result.development && !result.addCaller && result.callerSkip == 0 && result.onPanic == nil && result.onFatal == nil
 
 //@ func (zap.Config).buildEncoder
 //@   props C19
@@ -961,9 +974,21 @@ package zap
 
 //@ func (zap.Config).buildOptions
 //@   props C19
-//@   flags trusted
+//@   flags nopanic
+//@   modifies nothing
+//@   ensures len(result) >= 1 && (forall k int :: 0 <= k && k < len(result) ==> result[k] != nil)
+//@   loop 1 invariant fresh(arr(keys)) && cells_frame(type(string)) && elems_frame(type(string), zero(type([]string))) && type_frame(type(zapcore.Field))
+//@   loop 2 invariant 0 <= $idx && fresh(arr(fs)) && cells_frame(type(string)) && elems_frame(type(string), zero(type([]string))) && type_frame(type(zapcore.Field))
+
+// the sampling wrapper handed to WrapCore: builds a sampler around the core it is given
+//@ func (zap.Config).buildOptions$1
+//@   props C19
+//@   refines callback:zap.WrapCore$1.f
+//@   flags nopanic
+//@   requires core != nil
+//@   assumes *scfg != nil && cfg.Sampling != nil
 //@   modifies $user
-//@   ensures forall k int :: 0 <= k && k < len(result) ==> result[k] != nil
+//@   ensures result != nil
 
 //@ func (zap.Config).Build
 //@   props C19
@@ -1184,6 +1209,7 @@ package zap
 //@   refines callback:(zap.optionFunc).apply.f
 //@   flags trust-callees-nopanic
 //@   requires log != nil && unpublished(log)
+//@   assumes log.core != nil
 //@   modifies log.core, $user
 
 //@ func zap.Hooks$1
@@ -1260,6 +1286,8 @@ package zap
 
 // user function given to WrapCore: arbitrary, reaches zap state only through exported methods
 //@ callback zap.WrapCore$1.f
+//@   params core
+//@   requires core != nil
 //@   modifies $user
 
 // The option constructors: each boxes a closure literal (typeinv.make of zap.optionFunc is checked
@@ -1342,3 +1370,21 @@ package zap
 //@   modifies nothing
 //@   ensures result != nil
 
+// WithLazy (C07): the parent is untouched; with fields the result is a fresh logger whose core is the
+// lazy wrapper built by the closure below (through WithOptions/WrapCore).
+//@ func (*zap.Logger).WithLazy
+//@   props C07 C09
+//@   flags nopanic
+//@   requires log != nil
+//@   modifies $user
+//@   ensures len(fields) == 0 ==> result == log
+//@   ensures len(fields) > 0 ==> fresh(result)
+//@   ensures *log == old(*log)
+
+//@ func (*zap.Logger).WithLazy$1
+//@   props C07
+//@   refines callback:zap.WrapCore$1.f
+//@   flags nopanic
+//@   requires core != nil
+//@   modifies nothing
+//@   ensures typeof(result) == type(*zapcore.lazyWithCore) && fresh(as(result, type(*zapcore.lazyWithCore))) && as(result, type(*zapcore.lazyWithCore)).originalCore == core && as(result, type(*zapcore.lazyWithCore)).fields == *fields
